@@ -73,7 +73,64 @@ def _check_group(cases, ctx: Ctx):
     return out
 
 
-CLAUSES = {"collect": clause_collect}
+_REAL: dict = {}
+
+
+def clause_real(cases, ctx: Ctx):
+    """second pass: the real MLPQPolicy (epsilon-greedy, key-driven) and MLPSACPolicy through the real reset + iterations;
+    trace validation: the chosen actions are read back from the rows, everything else is the same reference."""
+    import equinox as eqx
+    import jax
+    from jax import random as jr
+
+    from lerax.callback import CallbackList
+    from mc import learnx
+
+    out = []
+    for ci, c in enumerate(cases):
+        E = c["num_envs"]
+        has_tl = bool(c.get("tl"))
+        env = collect.build_env(c)
+        if c["algo"] == "DQN":
+            pol = learnx.make_policy("q", env, c["policy_key"], epsilon=0.5)
+        else:
+            pol = learnx.make_policy("sac", env, c["policy_key"], width_size=8, depth=1)
+        sk = (c["algo"], E, c["num_steps"], c["buffer_size"], c["learning_starts"], c["n_iter"], c["S"], c["A"], c["act_kind"], c["obs_kind"], has_tl)
+        if sk not in _REAL:
+            algo = collect.make_off_algo(c)
+            cb = CallbackList(callbacks=[])
+
+            @eqx.filter_jit
+            def run(env, pol, key, algo=algo, n=c["n_iter"]):
+                ks = jr.split(key, 1 + n)
+                st = algo.reset(env, pol, key=ks[0], callback=cb)
+                snaps = [st.step_state.buffer]
+                for i in range(n):
+                    st = algo.iteration(st, key=ks[1 + i], callback=cb)
+                    snaps.append(st.step_state.buffer)
+                return snaps, st.step_state.env_state
+
+            _REAL[sk] = run
+        snaps, env_state = jax.tree.map(np.asarray, _REAL[sk](env, pol, jr.key(c["key"])))
+        C = c["buffer_size"] // E if E > 1 else c["buffer_size"]
+        tb = refs.Tables([c], repeat=E)
+        st_ = (lambda x: np.asarray(x)[None]) if E == 1 else (lambda x: np.asarray(x))
+        sd = [dict(obs=st_(sb.observations), nobs=st_(sb.next_observations), actions=st_(sb.actions), rewards=st_(sb.rewards), dones=st_(sb.dones),
+                   timeouts=st_(sb.timeouts), states=None, next_states=None, position=np.asarray(sb.position).reshape(E)) for sb in snaps]
+        fs, ft, ftl = collect.unwrap_env_state(env_state, has_tl)
+        one = lambda x: np.asarray(x).reshape(E)
+        fails, stats = refs.check_offpolicy(tb, None, sd, one(fs), one(ft), None if ftl is None else one(ftl), None, C, c["learning_starts"], c["num_steps"], trace_actions=True)
+        for k, v in stats.items():
+            ctx.guard("real-" + k, v)
+        ctx.outcome("real-actions", tuple(np.asarray(snaps[-1].actions).ravel().round(3).tolist()))
+        ctx.traces += E
+        ctx.transitions += E * (c["learning_starts"] + c["n_iter"] * c["num_steps"])
+        for stream, row, sig, msg in fails:
+            out.append((ci, sig.replace("C05/", "C05/real/"), f"[{c['algo']} real policy key {c['policy_key']}, env {stream} of {E}] " + msg))
+    return out
+
+
+CLAUSES = {"collect": clause_collect, "real": clause_real}
 
 
 def explore(ctx: Ctx):
@@ -125,9 +182,20 @@ def explore(ctx: Ctx):
              [(bs, ls, ne, ns, 1) for bs in (4, 8) for ls in (0, 3) for ne in (1, 2) for ns in (1, 2)], keys[:1])
     ctx.notes["plan_cases"] = plan
     ctx.run("collect", cases)
+    real = []
+    for algo, kind, obs in (("DQN", "discrete", "onehot"), ("SAC", "box", "onehot")):
+        fam = list(family(2, 2, shaped=True, limits=[(0, 2), (0, 3), (2, 0)], act_kind=kind, obs_kind=obs))
+        fam = fam[:: max(1, len(fam) // (24 if thorough else 8))]
+        for tab in fam:
+            for pk in range(3 if thorough else 2):
+                for (bs, ls, ne, ns, ni) in ((8, 3, 1, 3, 2), (12, 2, 2, 3, 2)):
+                    real.append(dict(tab, algo=algo, script=[0], policy_key=pk, buffer_size=bs, learning_starts=ls, num_envs=ne, num_steps=ns, n_iter=ni,
+                                     key=keys[pk % len(keys)], gamma=0.5))
+    ctx.run("real", real)
+    ctx.notes["real_policy_cases"] = len(real)
     trivial = sum(1 for c in cases if not any(c["term"]) and not c.get("tl") and not c.get("limit") and c["act_kind"] not in refs.BOX_KINDS
                   and c["learning_starts"] + c["n_iter"] * c["num_steps"] <= (c["buffer_size"] // c["num_envs"] if c["num_envs"] > 1 else c["buffer_size"]))
     ctx.notes["trivial_cases"] = trivial
     ctx.nontrivial = set(range(len(cases) - trivial))
     ctx.states = ctx.transitions + ctx.traces
-    ctx.require("trunc_only", "term_only", "both", "clipped", "after_reset", "wrapped", "done_rows")
+    ctx.require("trunc_only", "term_only", "both", "clipped", "after_reset", "wrapped", "done_rows", "real-done_rows", "real-after_reset", "real-trunc_only")
